@@ -162,13 +162,13 @@ pub fn checks() -> Vec<Check> {
                 vec![Part { name: gm::DIRTY_GM.name(), xen: false, quick: 500_000, thorough: 20_000_000 }, Part { name: mem::DIRTY_SLICE.name(), xen: false, quick: 500_000, thorough: 20_000_000 }, Part { name: mem::DIRTY_RACE.name(), xen: false, quick: 500_000, thorough: 20_000_000 }, Part { name: "S-xen", xen: true, quick: 200_000, thorough: 8_000_000 }]
             },
             rule: if prop == "C05" {
-                "runs are seeded histories of up to 10 write-type and read-type operations at guest-memory, region and derived-slice level (written data is the complement of the current contents), descriptor reads with injected syscall results, scripted readers that fail part-way, interleaved with bitmap resets/harvests, on 1-3 regions with real AtomicBitmaps (plain or Option) of page sizes 1, 2, 3, 16, 64, 4096 or larger than the region; oracle: every byte whose value changed is dirty in the owning region's bitmap, and a failed descriptor read leaves its whole target dirty; third part S-dirty/race: a writer coroutine (every tracked write entry point, descriptor reads that block in read(2)) against a harvester coroutine (get_and_reset + copy of the reported pages) switched at every guest access, bitmap word operation and blocked read, oracle = the copy assembled from the harvests equals guest memory after a last harvest; distinct = distinct event-log hash; non-trivial = at least one operation succeeded and one was rejected or cut off"
+                "runs are seeded histories of up to 10 write-type and read-type operations at guest-memory, region and derived-slice level (written data is the complement of the current contents), descriptor reads with injected syscall results, scripted readers that fail part-way, interleaved with bitmap resets/harvests, on 1-3 regions with real AtomicBitmaps (plain or Option) of page sizes 1, 2, 3, 16, 64, 4096 or larger than the region; oracle: every byte whose value changed is dirty in the owning region's bitmap, and a failed descriptor read leaves its whole target dirty; third part S-dirty/race: a writer coroutine (every tracked write entry point, descriptor reads that block in read(2)) against a harvester coroutine (get_and_reset + copy of the reported pages) switched at every guest access, bitmap word operation and blocked read, oracle = the copy assembled from the harvests equals guest memory after a last harvest; fourth part S-xen (xen build): the access histories of C17 on regions that carry the bitmap from_range builds - a changed guest byte must be dirty, and an access that failed before it wrote anything (its temporary mapping could not be made) marks nothing; distinct = distinct event-log hash; non-trivial = at least one operation succeeded and one was rejected or cut off"
             } else {
                 "same runs as C05 with the precision oracle: the full bitmap after each operation equals the bitmap before it plus exactly the pages overlapping the written bytes (reads, loads, queries, derivations, stream writes out of memory and rejected requests mark nothing; only a failed descriptor read may mark its whole target; partially completed failing writes are left to C05); distinct = distinct event-log hash; non-trivial = at least one operation succeeded and one was rejected or cut off"
             },
             assumptions: COMMON_ASSUMPTIONS.to_vec(),
             real: vec!["vm_memory dirty tracking in volatile_memory / io / mmap, AtomicBitmap, RefSlice, Option<B> (compiled from /repo working tree)", "kernel mmap / memfd / read(2) when the injector passes through"],
-            stub: vec!["injected read(2) results at the H4 seam", "scripted readers", "actor interleaving at operation granularity (seeded)", "S-dirty/race: thread scheduling and blocking in read(2) (coroutines under the seeded scheduler; the harvester's page copy stands for the VMM's migration thread)"],
+            stub: vec!["injected read(2) results at the H4 seam", "scripted readers", "actor interleaving at operation granularity (seeded)", "S-dirty/race: thread scheduling and blocking in read(2) (coroutines under the seeded scheduler; the harvester's page copy stands for the VMM's migration thread)", "S-xen part: emulated gntdev/privcmd device over a sparse memfd, simulated MMU, injected map-ioctl / mmap failures"],
             needs_seam_events: true,
         });
         let _ = what;
